@@ -64,6 +64,9 @@ def build_meta(E, version, ws_string=False, shuffle=False):
     info["piece length"] = 16384
     if version in (1, 3):
         info["pieces"] = ew.tok("pieces", 20)
+        if version == 3 and E.choice("empty-pieces", 2) == 1:
+            info["pieces"] = ABuf.of([])        # hybrid made only of empty files
+            info["length"] = 0
     if shuffle:
         info = dict(reversed(list(info.items())))
     meta = {}
@@ -172,7 +175,7 @@ def job(E, version, req, route, ws_string=False, shuffle=False, _mutants=None):
 
 # ------------------------------------------------------------------ concrete side
 
-NASTY = ["my file & more=100% +#é中.bin", "http://tr.example/ann?x=1&y=2 z", "http://[::1]/a+b#f", "udp://türk.example:80/%41",
+NASTY = ["my file & more=100% +#é中%2F.bin", "http://tr.example/ann?x=1&y=2 z&passkey=ab%2Fcd%3D", "http://[::1]/a+b#f", "udp://türk.example:80/%41",
          "http://ws.example/dir name/?q=a&b", "http://w2/ä", "http://w3/+"]
 
 
@@ -189,6 +192,9 @@ def conc_meta(version, model, ws_string=False, shuffle=False):
     info["piece length"] = 16384
     if version in (1, 3):
         info["pieces"] = hashlib.sha1(data).digest()
+        if version == 3 and int(model.get("empty-pieces", 0)) == 1:
+            info["pieces"] = b""
+            info["length"] = 0
     meta = {}
     t = int(model.get("trackers", 0))
     trackers = []
@@ -301,7 +307,7 @@ def validate(tier, workdir, seed):
                     bad = replay(dict(version=version, req=req, route="magnet"), {"trackers": t, "webseeds": n}, {}, d, seed)
                     runs += 1
                     if bad:
-                        errs.append("real magnet() fails the concrete oracle on unchanged code: v%d t=%d ws=%d req=%d: %r" % (version, t, n, req, bad))
+                        errs.append("VIOLATION: real magnet() fails the concrete oracle (names/URLs with reserved characters, %%XX escapes, non-ASCII): v%d trackers=%d webseeds=%d request=%d: %r" % (version, t, n, req, bad))
     return runs, errs
 
 
